@@ -39,4 +39,7 @@
                  '(replayed last in the harness process), model witness caches_invisible_refuted_globals',
                  'extracted source fact Gen/DeclHash.v (decl_hash_injective): computeDeclHash keys its table '
                  'by the full declaration encoding AND stores a fresh-unique id (uuid.New or a counter) for '
-                 'a new key - not a digest of the encoding; a change to either breaks the *_src obligations']}
+                 'a new key - not a digest of the encoding; a change to either breaks the *_src obligations',
+                 'PROVED over the C02 evaluator model: cache_key_determines_result - equal cache keys (node '
+                 'ID, declaration hash, xpathQueryNeeded) give equal results for all declaration kinds incl. '
+                 'custom functions taking the node implicitly (C13-r41 class); key_without_node_refuted']}
